@@ -37,6 +37,10 @@ Pos == -M..M
 Q == (-2*M + 1)..(2*M)                      \* probes, doubled coordinates
 NormP(k) == IF k = -M THEN M ELSE k
 WrapP(k) == LET r == ((k + 5*M) % (2*M)) - M IN IF r = -M THEN M ELSE r      \* k >= -4M
+\* The wrap point has two float representations: probe 2M is +pi and -2M is -pi.  They are
+\* the same model point; every operation taking a point must accept both and agree.
+NormQ(q) == IF q = -2*M THEN 2*M ELSE q
+QReps(q) == IF q = 2*M THEN {2*M, -2*M} ELSE {q}
 WrapQ(q) == LET r == ((q + 10*M) % (4*M)) - 2*M IN IF r = -2*M THEN 2*M ELSE r
 
 SEmpty == <<M, -M>>
@@ -197,6 +201,8 @@ RcIntersects(R, S) == RcSet(R) \cap RcSet(S) # {}
 RcPolarClosure(R) ==
     IF ~RcIsEmpty(R) /\ (R[1][1] = -2*ML \/ R[1][2] = 2*ML) THEN <<R[1], SFull>> ELSE R
 RcAddPoint(R, p) == {<<LatHull(LatSet(R[1]) \cup {p[1]}), g>> : g \in SAddPoint(R[2], p[2])}
+\* RectFromLatLng: the one-point rectangle (longitude on the grid: p[2] even)
+RcFromLatLng(p) == <<<<p[1], p[1]>>, <<NormP(NormQ(p[2]) \div 2), NormP(NormQ(p[2]) \div 2)>>>>
 \* margins: ml in latitude grid steps (2 units), mg in circle grid steps
 RcExpanded(R, ml, mg) ==
     LET lat == IF RcIsEmpty(R) THEN LatEmpty
